@@ -92,12 +92,16 @@ class FileSystemLoader(BaseLoader):
 
     @staticmethod
     def _uptodate(source_path: Path, mtime: float) -> bool:
-        return mtime == source_path.stat().st_mtime
+        try:
+            return mtime == source_path.stat().st_mtime
+        except OSError:
+            # The file has gone. Not up to date; let the reload report it.
+            return False
 
     @staticmethod
     async def _uptodate_async(source_path: Path, mtime: float) -> bool:
         return await asyncio.get_running_loop().run_in_executor(
-            None, lambda: mtime == source_path.stat().st_mtime
+            None, FileSystemLoader._uptodate, source_path, mtime
         )
 
     async def get_source_async(
